@@ -224,13 +224,20 @@ Definition cleanup_temporary_directory (temp : path) : prog (outcome unit) :=
 Definition is_dir_follow (p : path) : prog bool :=
   r <- call1 (CStat p true) ;; Ret (match r with RStat st => st_dir st | _ => false end).
 
-(** std::fs::create_dir_all, by recursion on the reversed path *)
+(** std::fs::create_dir_all (DirBuilder::create_dir_all), by recursion on the
+    reversed path: mkdir; NotFound -> create the parents first, then mkdir again;
+    AlreadyExists is fine when the path is a directory; any other error is
+    returned as is. *)
 Fixpoint create_dir_all_rev (rp : list string) : prog (outcome unit) :=
   match rp with
   | [] => Ret (Ok tt)
   | _ :: rparent =>
       let p := rev rp in
-      let settle (e : errno) := (b <- is_dir_follow p ;; Ret (if b then Ok tt else Err (OsErr e))) in
+      let settle (e : errno) :=
+        match e with
+        | EEXIST => (b <- is_dir_follow p ;; Ret (if b then Ok tt else Err (OsErr e)))
+        | _ => Ret (Err (OsErr e))
+        end in
       r <- call1 (CMkdir p) ;;
       match r with
       | RErr ENOENT =>
@@ -325,7 +332,22 @@ Definition sort_by_load (h nshards total : N) (ids : N * N) : prog (N * N) :=
   let cap := sharded_shard_capacity nshards total in
   Ret (if (clampN l1 0 cap <=? clampN l2 0 cap)%N then ids else (snd ids, fst ids)))).
 
-Definition file_exists (p : path) : prog bool :=
+(** Shard::file_exists: only missing-file errors mean "absent"; the name is
+    validated before it is used to build a path (repair of finding F4). *)
+Definition file_exists (dirp : path) (name : string) : prog (outcome bool) :=
+  match validate name with
+  | Err e => Ret (Err e) | Panic => Ret Panic
+  | Ok _ =>
+      r <- call1 (CStat (dirp ++ [name]) true) ;;
+      Ret (match r with
+           | RStat _ => Ok true
+           | RErr e => if is_absent (OsErr e) then Ok false else Err (OsErr e)
+           | _ => Err (OsErr EINVAL)
+           end)
+  end.
+
+(** The same as shipped before the repair (kept for the record of finding F4). *)
+Definition file_exists_pinned (p : path) : prog bool :=
   r <- call1 (CStat p true) ;; Ret (match r with RStat _ => true | _ => false end).
 
 Definition update_estimate (h id : N) (upd : option N) : prog unit :=
@@ -344,7 +366,7 @@ Definition sh_publish (ins : cdir -> string -> path -> prog (outcome (option N))
   let n := eff_shards nshards in
   ids <- sort_by_load h nshards total (shard_ids (k_hash k) (k_sec k) nshards) ;;
   let '(h1, h2) := ids in
-  ex <- file_exists (dir ++ [format_id h2] ++ [k_name k]) ;;
+  try (file_exists (dir ++ [format_id h2]) (k_name k)) (fun ex =>
   let sid := if ex then h2 else h1 in
   try (ins (shard_cdir dir nshards total sid) (k_name k) value) (fun upd =>
   update_estimate h h1 upd ;;;
@@ -357,7 +379,7 @@ Definition sh_publish (ins : cdir -> string -> path -> prog (outcome (option N))
       if (sharded_shard_capacity nshards total <? l / 2)%N
       then Mark 20 [] (force_maintain_shard h dir nshards total sid)    (* ghost: overload maintenance *)
       else Ret (Ok tt))
-  end).
+  end)).
 
 Definition sh_get (dir : path) (nshards total : N) (k : key) : prog (outcome (option nat)) :=
   let '(h1, h2) := shard_ids (k_hash k) (k_sec k) nshards in
